@@ -36,14 +36,10 @@ def check(repo, res, tier):
     cls = M.sim_class(repo)
     # S4: "rows differ by V times the counts of that interval" needs the per-step counts to be the counts that were
     # applied (one-hot at the fired event in exact mode; the drawn count per event in tau mode) and to be recorded
-    from ..rules import step as S
-    res.rule("R-STEP", "per-step counts reported = counts applied to the state (same index, same draw); recorded from the step that produced the state")
-    res.rule("R-FR", "exact mode: the fired event is the one whose column was applied and whose count is 1")
-    res.rule("R-SLOT", "the counts / times recorded per step are the matching slots of the stepper result")
-    ctx = S.Ctx(repo)
-    S.check_first_reaction(ctx, res)
-    S.check_tau_leap(ctx, res)
-    S.check_jump(ctx, res)
+    from ..rules import stepx as X
+    res.rule("R-WALK", "per-step counts recorded = counts applied to the state (exact mode: one-hot at the fired event), recorded with the state and time they produced")
+    n = X.check_walks(repo, res)
+    res.floor("walk scenarios interpreted", n, 15)
     _check_loopdep(repo, res, cls)
     _check_lookup(repo, res, cls)
     _check_interp(repo, res, cls)
